@@ -6,6 +6,7 @@ CONSTANTS
   MaxSelect = 2
   GcBefore = 3
   Concurrent = TRUE
+  WithCheckpoint = FALSE
   OrderedPush = TRUE
   AsBuilt = {"gc_ignores_outside"}
 INVARIANTS RecoveryStable
